@@ -241,7 +241,7 @@ def shapes(t, sd):
         items.append(dict(spec={"cps": [{"name": "cp", "type": ["enum", "E5"], "ignore": [["ig", [5]]]}]}, nsamples=2, shape="enum_ignore", enum_samples=[ev, 9]))
         items.append(dict(spec={"cps": [{"name": "cp", "type": ["enum", "E5"], "iff": "field"}]}, nsamples=1, shape="enum_iff", enum_samples=[ev]))
     # seeded: random disjoint range sets
-    for _ in range(40 if t == "quick" else 400):
+    for _ in range(40 if t == "quick" else 4000):
         k = rnd.randint(1, 4)
         pts = sorted(rnd.sample(range(0, 64), 2 * k))
         rs = []
@@ -284,7 +284,7 @@ def main():
     t = tier()
     chk.bound("coverpoint types u1..u8, s2..s8, u32/u64/s64 (auto-bins), 5-member IntEnum; sample value: whole type range, symbolic; 1..2 samples",
               "explicit bins: <= 4 ranges per bin, bin counts none/1..6; ignore/illegal cuts at left/right/middle/whole; auto_bin_max in {1,2,3,4,5,64}",
-              "%d seeded random array specifications over a 6-bit type" % (40 if t == "quick" else 400),
+              "%d seeded random array specifications over a 6-bit type" % (40 if t == "quick" else 4000),
               "kernels: compact() with 2..%d and intersect() with 2x1, 2x2%s symbolic disjoint ranges, endpoints |x| <= 2^40" % (3 if t == "quick" else 4, "" if t == "quick" else ", 3x2"))
     chk.extra["rule"] = "one evaluation = one coverpoint specification (or kernel configuration) explored over all paths; distinct = distinct specifications"
     e3.run_e3(chk, shapes(t, seed()), build, replay_module="checks.c10")
